@@ -17,8 +17,9 @@
     `self.wrapping_mul(y)`).
   * `while pow > 1 { …; pow >>= 1 }`: structural recursion on a fuel counter that is initialised with
     `pow` itself (`pow >> 1 < pow`, so the fuel never runs out before `pow ≤ 1`; the fuel-exhausted
-    equation returns the current state and is dead code: `Pow.powLoopO_fuel` etc. in Lemmas/Pow.lean
-    show the result does not depend on the fuel once `pow ≤ fuel + 1`).  The exponent is a `Nat`; the
+    equation returns the current state and is dead code: `Pow.loopO_fuel_irrel` in Lemmas/Pow.lean
+    shows that any larger fuel gives the same result, and `Pow.loopW_eq` / `Pow.loopC_eq` relate the
+    other two loops to this one for every fuel).  The exponent is a `Nat`; the
     theorems hold for every exponent, in particular for all of `0..=u32::MAX`.
   * `ExpType = u32` arithmetic inside `iilog` is modelled with its real width: `m << 1` is the
     wrapping shift (a shift by the constant 1 can never panic), `new + m` panics on overflow when
